@@ -697,7 +697,23 @@ def elements_for(c):
                 if sum(1 for n in all_names if n[:k] == p) == 1:
                     names.append(p)
                     break
-        els.append({"kind": "sub", "id": "sub", "last": True, "sp": [[n] for n in names]})
+        sp = [[n] for n in names]
+        # a flag subcommand is also named by its short / long flag, alone or inside a group of short flags
+        if s["long_flag"]:
+            sp += [[b("--") + s["long_flag"]]] + [[b("--") + al] for al in s["long_flag_aliases"]]
+        if s["short_flag"]:
+            sp += [[[45] + s["short_flag"]]] + [[[45] + al] for al in s["short_flag_aliases"]]
+        els.append({"kind": "sub", "id": "sub", "last": True, "sp": sp})
+        if s["short_flag"]:
+            subflags = [a for a in s["args"] if a["short"] and a["action"] in ("SetTrue", "SetFalse", "Count")]
+            S = s["short_flag"]
+            for u in subflags[:2]:
+                els.append({"kind": "subcluster", "id": "sub+" + u["id"], "last": True,
+                            "sp": [[[45] + S, [45] + u["short"]], [[45] + S + u["short"]]]})
+                for x in flags[:2]:
+                    els.append({"kind": "subcluster", "id": x["id"] + "+sub+" + u["id"], "last": True,
+                                "sp": [[[45] + x["short"], [45] + S, [45] + u["short"]], [[45] + x["short"] + S, [45] + u["short"]],
+                                       [[45] + x["short"], [45] + S + u["short"]], [[45] + x["short"] + S + u["short"]]]})
     # ambiguous prefixes (>= 2 candidate arguments, no exact match): must never be resolved
     if infer:
         seen = []
@@ -710,6 +726,8 @@ def elements_for(c):
                     els.append({"kind": "ambiguous", "id": "amb", "last": True, "sp": [[b("--") + pfx]]})
     for e in els:
         e["amb"] = e["kind"] == "ambiguous"
+        # a short flag subcommand inside a group hands its position on to the subcommand: indices differ from the detached spelling
+        e["noidx"] = e["kind"] == "subcluster" or (e["kind"] == "sub" and any(len(sp) == 1 and len(sp[0]) == 2 and sp[0][0] == 45 for sp in e["sp"]))
     return [e for e in els if len(e["sp"]) >= 1]
 
 
@@ -737,6 +755,10 @@ def f_spell():
     add("override-self", cmd("p", [arg("o", "o", "opt"), arg("a", "a", "aa", action="SetTrue"), arg("c", "c", action="Count")], args_override_self=True))
     add("delim+append", cmd("p", [arg("o", "o", "opt", action="Append", delim=","), arg("a", "a", action="SetTrue"), arg("p1", num=(0, None))]))
     add("hyphen-option", cmd("p", [arg("a", "a", "aa", action="SetTrue"), arg("o", "o", "opt", hyphen=True), arg("p1", num=(0, None))]))
+    add("flag-subcommands", cmd("pac", [arg("v", "v", action="Count"), arg("q", "q", "quiet", action="SetTrue")],
+                                subs=[cmd("sync", [arg("u", "u", action="SetTrue"), arg("y", "y", action="Count")], short_flag="S", long_flag="sync",
+                                          long_flag_aliases=["synchronise"], short_flag_aliases=["Y"]),
+                                      cmd("query", [arg("i", "i", action="SetTrue")], short_flag="Q")]))
     return D
 
 
